@@ -274,6 +274,26 @@ package engine
 //@   ensures [C11] the-name-as-written: (imp.Name == nil ==> m.Name == nil && m.NameS == "") && (imp.Name != nil ==> m.NameS == imp.Name.Name && m.Name != nil)
 //@   ensures [C11] the-path-as-written: m.Path == unquoted(imp.Path.Value) && m.Fset == c.fset
 
+//@ func dotsStmt(pos) (s)
+//@   ensures isDotsStmtAt(s, pos)
+//@   assigns nothing
+
+// A statement-list pattern (C01, C04) is framed by an implicit elision at each end - at the first and at the
+// last position of the patch, on both sides alike, so that the two framing elisions of the '+' side are
+// associated with those of the '-' side - whatever the written statements are; an empty list stays empty.
+//@ func (c *matcherCompiler) compilePGoStmtList(slist) (m)
+//@   requires typing: compileEnvOK()
+//@   requires slist != nil
+//@   assigns c.dots, elems(c.dots)
+//@   at call (*engine.matcherCompiler).compile assert [C01,C04] framed-by-an-elision-at-each-end: arg1 == rvOf(boxed(list)) && (len(slist.List) == 0 ==> len(list) == 0) && (len(slist.List) > 0 ==> len(list) == len(slist.List) + 2 && isDotsStmtAt(list[0], c.patchStart) && isDotsStmtAt(list[len(slist.List) + 1], c.patchEnd) && forall j int {list[j + 1]} :: 0 <= j && j < len(slist.List) ==> list[j + 1] == slist.List[j])
+//@   ensures [C01] m.typ == dyn("github.com/uber-go/gopatch/internal/engine.stmtSliceContainerMatcher") && unbox(m, "S_engine_stmtSliceContainerMatcher").Stmts != nil
+//@ func (c *replacerCompiler) compilePGoStmtList(slist) (m)
+//@   requires typing: compileEnvOK()
+//@   requires slist != nil
+//@   assigns c.dots, elems(c.dots)
+//@   at call (*engine.replacerCompiler).compile assert [C03,C04] framed-by-an-elision-at-each-end: arg1 == rvOf(boxed(list)) && (len(slist.List) == 0 ==> len(list) == 0) && (len(slist.List) > 0 ==> len(list) == len(slist.List) + 2 && isDotsStmtAt(list[0], c.patchStart) && isDotsStmtAt(list[len(slist.List) + 1], c.patchEnd) && forall j int {list[j + 1]} :: 0 <= j && j < len(slist.List) ==> list[j + 1] == slist.List[j])
+//@   ensures [C03] m.typ == dyn("github.com/uber-go/gopatch/internal/engine.stmtSliceContainerReplacer") && unbox(m, "S_engine_stmtSliceContainerReplacer").Stmts != nil
+
 // ---- elision (C04) ---------------------------------------------------------------------------------
 
 //@ func sectionRegion(items, r, start, end) (r1)
